@@ -9,6 +9,7 @@ import random
 from .. import corpus, driver
 from ..driver import ShardResult, h64
 from ..worker import Worker, outcome
+from ..gen import GenCalls, GenJumps, emit_with_procs
 from .c08 import make_case
 from .common import norm_msg
 
@@ -19,7 +20,7 @@ def sig_of(msg):
     m = norm_msg(msg)
     # keep the clause, drop addresses and positions
     for key in ("underflow:", "stack depth differs between two visits", "stack depths at procedure return", "executed branch",
-                "label", "unresolved", "outside the list", "does not end with", "statement address", "PushRet", "targets", "empty procedure"):
+                "stacks are not back", "label", "unresolved", "outside the list", "does not end with", "statement address", "PushRet", "targets", "empty procedure"):
         if key in m:
             if key == "underflow:":
                 return "underflow:" + m.split("underflow:")[1].strip().split(" ")[0]
@@ -61,7 +62,16 @@ def shard(ctx):
         if queue:
             kind, src, stdin, uses_files, lpt1, feats = queue.pop()
         else:
-            kind, src, stdin, uses_files, lpt1, feats = make_case(rng, texts, accepted)
+            x = rng.random()
+            if x < 0.25:
+                g = GenCalls(rng, max_depth=rng.choice([2, 3]), size=rng.choice([4, 7]))
+                src, _ = emit_with_procs(g.program())
+                kind, stdin, uses_files, lpt1, feats = "calls", "", False, None, []
+            elif x < 0.42:
+                src, _ = emit_with_procs(GenJumps(rng).program())
+                kind, stdin, uses_files, lpt1, feats = "jumps", "", False, None, []
+            else:
+                kind, src, stdin, uses_files, lpt1, feats = make_case(rng, texts, accepted)
         if "INKEY$" in src.upper():
             continue
         rep = w.run(src, want=["c15", "hist"] + (["files"] if uses_files else []), stdin=stdin, files={} if uses_files else None, budget=ctx.params["budget"])
